@@ -30,8 +30,15 @@ type DeadlineCase struct {
 	UseRun  bool   `json:"use_run"`
 	NoOpt   bool   `json:"noopt"`
 	Endless bool   `json:"endless"`
-	Msg     string `json:"message,omitempty"`
+	// FarDeadline: the cancellable contexts are derived from a parent whose
+	// deadline lies ten minutes ahead (cancellation comes first). Derived: the
+	// context handed over is a child (WithValue) of the one described.
+	FarDeadline bool   `json:"far_deadline,omitempty"`
+	Derived     bool   `json:"derived,omitempty"`
+	Msg         string `json:"message,omitempty"`
 }
+
+type c09Key struct{}
 
 // margin is how long after the deadline a return is still "prompt". Normal
 // latency is microseconds; the bound is the subject of the property.
@@ -57,10 +64,16 @@ func runDeadline(c *DeadlineCase) error {
 	var ctx context.Context
 	cancel := func() {}
 	limit := c09Margin
+	base := context.Background()
+	if c.FarDeadline {
+		var bcancel context.CancelFunc
+		base, bcancel = context.WithTimeout(context.Background(), 10*time.Minute)
+		defer bcancel()
+	}
 	switch c.Ctx {
 	case "cancelled":
 		var cf context.CancelFunc
-		ctx, cf = context.WithCancel(context.Background())
+		ctx, cf = context.WithCancel(base)
 		cf()
 	case "past":
 		ctx, cancel = context.WithDeadline(context.Background(), time.Now().Add(-time.Second))
@@ -69,7 +82,7 @@ func runDeadline(c *DeadlineCase) error {
 		limit += time.Duration(c.Millis) * time.Millisecond
 	case "cancel-later":
 		var cf context.CancelFunc
-		ctx, cf = context.WithCancel(context.Background())
+		ctx, cf = context.WithCancel(base)
 		cancel = cf
 		limit += time.Duration(c.Millis) * time.Millisecond
 	case "long-control":
@@ -77,10 +90,13 @@ func runDeadline(c *DeadlineCase) error {
 		limit = 30 * time.Second
 	case "cancel-after-runs":
 		var cf context.CancelFunc
-		ctx, cf = context.WithCancel(context.Background())
+		ctx, cf = context.WithCancel(base)
 		cancel = cf
 	}
 	defer cancel()
+	if c.Derived {
+		ctx = context.WithValue(ctx, c09Key{}, 1)
+	}
 	r, err := mk(ctx)
 	if err != nil {
 		return fmt.Errorf("Prepare rejected the script: %v", err)
@@ -283,6 +299,8 @@ func TestC09(t *testing.T) {
 			pr := gen.Program(rt, gen.ProgOpts{Depth: 2, Block: 3, Funcs: 1, Ternary: true, Switch: true, EarlyRet: true, NoSqrtFold: true})
 			c.Script = lang.ProgramText(pr.P)
 			c.Ctx = rapid.SampledFrom([]string{"long-control", "long-control", "cancelled", "past", "cancel-after-runs", "cancel-after-runs"}).Draw(rt, "cctx")
+			c.FarDeadline = rapid.Bool().Draw(rt, "cfardeadline")
+			c.Derived = gen.Uniform(rt, "cderived", 4) == 0
 			if c.Ctx == "cancel-after-runs" {
 				c.Millis = rapid.IntRange(1, 6).Draw(rt, "priorruns")
 				if rapid.Bool().Draw(rt, "tinyscript") {
@@ -293,6 +311,8 @@ func TestC09(t *testing.T) {
 			c.Endless = true
 			c.Script, shape = endlessScript(rt)
 			c.Ctx = rapid.SampledFrom([]string{"cancelled", "past", "deadline", "deadline", "deadline", "cancel-later", "cancel-later"}).Draw(rt, "ctx")
+			c.FarDeadline = rapid.Bool().Draw(rt, "fardeadline")
+			c.Derived = gen.Uniform(rt, "derived", 4) == 0
 			switch c.Ctx {
 			case "deadline":
 				c.Millis = rapid.SampledFrom([]int{1, 2, 5, 10, 20, 50, 100, 200, 300}).Draw(rt, "ms")
